@@ -14,9 +14,10 @@ Hypothesis tls_tcp : c_tls c = true -> c_tcp c = true.     (* TLS over UNIX sock
 Notation world := (world P).
 Notation tls := (c_tls c).
 
-(* only Exception-class failures are scripted for the non-recv socket calls *)
+(* only Exception-class failures are scripted for the non-recv socket calls (no interruption after the effect: those are
+   BaseException-class events, C10's subject) *)
 Definition script_exc (w : world) : Prop :=
-  Forall (fun o => match o with OFail e => exn_isa e Exception_ = true | ONormal => True end) (w_script w).
+  Forall (fun o => match o with OFail e => exn_isa e Exception_ = true | ONormal => True | OLate _ => False end) (w_script w).
 
 Definition As (s : mstate) (k : option Z) (w : world) : Prop :=
   mon tls (w_trace w) = s /\ w_sock w = k /\ script_exc w.
@@ -78,12 +79,25 @@ Proof.
   - cbn. split; [exact Hm|split; [exact H2|exact H3]].
   - assert (H3' := H3). unfold script_exc in H3'. rewrite Es in H3'.
     pose proof (Forall_inv H3') as Ho. pose proof (Forall_inv_tail H3') as Hr.
-    destruct o as [|x]; cbn; [split; [exact Hm|split; [exact H2|exact Hr]]|].
+    destruct o as [|x|x]; cbn; [split; [exact Hm|split; [exact H2|exact Hr]]| |destruct Ho].
+    split; [exact Ho|]. split; [exact Hm|split; [exact H2|exact Hr]].
+Qed.
+Lemma h_call_late s k e :
+  hoare (As s k) (call_late (P:=P) e) (fun late w => late = None /\ As (monitor tls s e) k w)
+        (fun x w => exn_isa x Exception_ = true /\ As (monitor tls s e) k w).
+Proof.
+  intros w (H1 & H2 & H3). unfold call_late, mbind, log, pop. cbn [fst snd w_script upd_trace].
+  assert (Hm : mon tls (e :: w_trace w) = monitor tls s e) by (rewrite mon_cons, H1; reflexivity).
+  destruct (w_script w) as [|o r] eqn:Es.
+  - cbn. split; [reflexivity|]. split; [exact Hm|split; [exact H2|exact H3]].
+  - assert (H3' := H3). unfold script_exc in H3'. rewrite Es in H3'.
+    pose proof (Forall_inv H3') as Ho. pose proof (Forall_inv_tail H3') as Hr.
+    destruct o as [|x|x]; cbn; [split; [reflexivity|split; [exact Hm|split; [exact H2|exact Hr]]]| |destruct Ho].
     split; [exact Ho|]. split; [exact Hm|split; [exact H2|exact Hr]].
 Qed.
 
 Lemma h_pop s k (E : exn -> world -> Prop) :
-  hoare (As s k) (@pop P) (fun o w => As s k w /\ match o with OFail x => exn_isa x Exception_ = true | ONormal => True end) E.
+  hoare (As s k) (@pop P) (fun o w => As s k w /\ match o with OFail x => exn_isa x Exception_ = true | ONormal => True | OLate _ => False end) E.
 Proof.
   intros w (H1 & H2 & H3). unfold pop. destruct (w_script w) as [|o r] eqn:Es; cbn.
   - repeat split; auto.
@@ -153,7 +167,7 @@ Lemma h_try_make j :
         (fun _ => As Idle None).
 Proof.
   unfold try_make.
-  cbn beta; eapply h_bind; [apply h_pop|]. intros o. destruct o as [|e].
+  cbn beta; eapply h_bind; [apply h_pop|]. intros o. destruct o as [|e|e]; [| |intros w [_ []]].
   - (* socket() succeeded *)
     cbn beta; eapply h_conseq with (Pre' := As Idle None); [|intros w [H _]; exact H|intros a w H; exact H|intros e w H; exact H].
     cbn beta; eapply h_bind; [apply h_fresh_sid|]. intros sid.
@@ -168,7 +182,7 @@ Proof.
            ++ intros e w [Hx H]. rewrite (mon_setopt sid 0 false 1 eq_refl) in H. split; assumption.
         -- apply h_ret'; intros ?w ?H; cbn beta; try assumption.
       * intros ?u; cbn beta. destruct tls eqn:Et.
-        -- cbn beta; eapply h_bind; [apply h_pop|]. intros o2. destruct o2 as [|e2].
+        -- cbn beta; eapply h_bind; [apply h_pop|]. intros o2. destruct o2 as [|e2|e2]; [| |intros w [_ []]].
            ++ eapply h_conseq with (Pre' := As (Live sid 0 false) None); [|intros w [H _]; exact H|intros a w H; exact H|intros e w H; exact H].
               cbn beta; eapply h_bind; [apply h_fresh_wrapped|]. intros wsid.
               cbn beta; eapply h_bind; [apply h_log|]. intros ?u; cbn beta.
@@ -259,7 +273,7 @@ Proof.
       intros [[[sid j]|] [e|]]; intros w H; cbn in *; try exact H; try destruct H.
     + (* UNIX socket: no TLS by hypothesis *)
       assert (Etls : tls = false) by (destruct tls eqn:X; [rewrite (tls_tcp eq_refl) in Etcp; discriminate|reflexivity]).
-      cbn beta; eapply h_bind; [apply h_pop|]. intros o. destruct o as [|e].
+      cbn beta; eapply h_bind; [apply h_pop|]. intros o. destruct o as [|e|e]; [| |intros w [_ []]].
       * eapply h_conseq with (Pre' := As Idle None); [|intros w [H _]; exact H|intros a w H; exact H|intros e w H; exact H].
         cbn beta; eapply h_bind; [apply h_fresh_sid|]. intros sid.
         cbn beta; eapply h_bind; [apply h_log|]. intros ?u; cbn beta.
@@ -311,10 +325,11 @@ Qed.
 Lemma h_send b : hoare InvS (send peer b) (fun _ => InvS) (fun _ => InvS).
 Proof.
   intros w [sid H]. unfold send, mbind, get_sock. destruct H as (H1 & H2 & H3). rewrite H2.
-  pose proof (h_call (Ready sid) (Some sid) (ESend sid b) w (conj H1 (conj H2 H3))) as Hc.
+  pose proof (h_call_late (Ready sid) (Some sid) (ESend sid b) w (conj H1 (conj H2 H3))) as Hc.
   rewrite mon_send in Hc.
-  destruct (call (ESend sid b) w) as [[u|e] w'].
-  - pose proof (h_deliver (Ready sid) (Some sid) b (fun _ _ => False) w' Hc) as Hd.
+  destruct (call_late (ESend sid b) w) as [[late|e] w'].
+  - destruct Hc as [-> Hc].
+    pose proof (h_deliver (Ready sid) (Some sid) b (fun _ _ => False) w' Hc) as Hd.
     destruct (deliver_reply peer b w') as [[u2|e2] w'']; [exists sid; exact Hd|destruct Hd].
   - exists sid. exact (proj2 Hc).
 Qed.
